@@ -670,7 +670,106 @@ def rule_z8(ctx, facts):
         ctx.fail_closed("Z8: expected the two initiating transfer calls (add_count, try_presize), found %d" % n)
 
 
+def rule_z15(ctx, facts):
+    """the walks that copy an old bin into its successor are exhaustive: a loop that allocates a fresh node per visited node and advances
+    its cursor by following `next` is left only through a test of that cursor itself (null, or equal to its sentinel) -- not, say, when
+    the *successor* is null, which leaves the last node of the bin uncopied while the bin is replaced by the forwarding marker"""
+    from .analysis import back_edges, loop_blocks, regions
+    from .anchors import is_fresh_alloc, is_link_load
+    n = 0
+    for name in ("HashMap::transfer", "HashMap::treeify_bin", "HashMap::untreeify"):
+        b = facts.body(name)
+        fl = flow(b)
+        locks = {r.call.b for r in regions(b)}
+        for be in back_edges(b, unwind=False):
+            tail, head = be
+            L = loop_blocks(b, be, unwind=False)
+            if b.is_cleanup(head) or (locks & set(L)):
+                continue          # the outer (per-bin) loops take locks; the walks do not
+            allocs = [c for c in b.calls if c.b in L and is_fresh_alloc(b, c) and "node::BinEntry" in b.ty(c.dst_local()).get("s", "")]
+            walks = [c for c in b.calls if c.b in L and is_link_load(c) == "load" and ("node::Node", "next") in receiver_field(b, c, 0)]
+            if not allocs or not walks:
+                continue
+            # the cursor: a local defined both inside and outside the loop whose inside definition derives from a `next` load of the walk
+            carried = set()
+            for l in range(len(b.locals)):
+                ds = [d for d in b.defs.get(l, []) if d[1] in ("assign", "call")]
+                if not (any(d[0][0] in L for d in ds) and any(d[0][0] not in L for d in ds)):
+                    continue
+                if any(x is not None and x.point in {w.point for w in walks} for x in fl.call_roots(l)):
+                    carried.add(l)
+            if not carried:
+                continue
+            # ... and, among those, the one the copied node is read from (what the fresh node is built of derives from it, through the
+            # constructor calls): a look-ahead `next` is carried too but is not the cursor
+            src = set()
+            stack = [op_root(a) for c in allocs for a in c.args if op_root(a) is not None]
+            while stack and len(src) < 400:
+                x = stack.pop()
+                if x in src:
+                    continue
+                src.add(x)
+                if x in carried:
+                    continue          # reached a carried local: that is the cursor; what IT was assigned from is not
+                for kind, data, pt in fl.sources(x):
+                    if kind == "copy":
+                        stack.append(data)
+                    elif kind in ("ref", "field", "discr"):
+                        stack.append(data["local"])
+                    elif kind == "view":
+                        stack.append(data[1])
+                    elif kind == "agg":
+                        stack += [op_root(o) for o in data["rv"]["ops"] if op_root(o) is not None]
+                    elif kind == "call" and pt[0] in L:
+                        stack += [op_root(a) for a in data.args if op_root(a) is not None]
+            if carried & src:
+                carried = carried & src
+            n += 1
+            outside = [x for x in range(len(b.blocks)) if x not in L]
+            inloop = reach(b, [Point(head, 0)], avoid_blocks=outside, unwind=False)
+            bad = None
+            for u in sorted(L):
+                if b.term_point(u) not in inloop:
+                    continue
+                for v, lab in b.term_succ(u, False):
+                    if v in L:
+                        continue
+                    cd = cond_of(b, u)
+                    ok_exit = False
+                    def is_cursor(x):
+                        """x is the cursor or a temporary copied FROM it (not something the cursor is assigned from)"""
+                        seen0, st0 = set(), [x]
+                        while st0:
+                            y = st0.pop()
+                            if y is None or y in seen0:
+                                continue
+                            seen0.add(y)
+                            if y in carried:
+                                return True
+                            for k0, d0, _ in fl.sources(y):
+                                if k0 == "copy":
+                                    st0.append(d0)
+                        return False
+                    if cd and cd["kind"] == "is_null" and cd.get("arg") is not None and is_cursor(cd["arg"]) and cd["true"] == v:
+                        ok_exit = True
+                    if cd and cd["kind"] == "ptr_eq" and (is_cursor(cd.get("a")) or is_cursor(cd.get("b"))):
+                        ok_exit = True
+                    if b.term(v)["k"] == "unreachable" or (b.call_at(v) is not None and b.call_at(v).target is None):
+                        ok_exit = True
+                    if not ok_exit:
+                        bad = (u, v)
+            ctx.inst("Z15", b, "copy walk over `%s`" % "/".join(sorted(b.local_name(l) or "_%d" % l for l in carried)),
+                     b.term(bad[0])["span"] if bad else b.term(head)["span"], bad is None,
+                     "left only when the cursor is null or has reached its sentinel" if bad is None else
+                     "the loop that copies the nodes of an old bin can be left at %s on a test that is not a test of its cursor: nodes that were not "
+                     "visited are not copied, yet the bin is then replaced by the forwarding marker" % b.term(bad[0])["span"])
+    if n < 3:
+        ctx.fail_closed("Z15: expected the copy walks of transfer (list and tree arm), treeify_bin and untreeify, found %d" % n)
+
+
 def run(ctx, facts):
+    ctx.rule("Z15", "the walks that copy an old bin are exhaustive: left only through a test of the cursor itself", floor=3)
+    rule_z15(ctx, facts)
     ctx.rule("Z14", "an old bin is marked as forwarded only after both halves are stored in the new table (rule L3 of C01): a bin counts as "
                     "migrated for everybody who meets the marker, so the marker must not run ahead of the migration", floor=2)
     from .rules_c01 import rule_l3
